@@ -21,7 +21,14 @@ fn finish(xs: &mut Xstate, r: &Xresult) -> String {
 /// before a failure, an `exit` code that is not an integer
 fn drive_shape(r: &mut crate::rng::Rng) -> String {
     let (a, b, n) = (r.range(-5, 50), r.range(0, 9), r.range(1, 6));
-    match r.below(15) {
+    match r.below(20) {
+        // meta blocks: they run while the source is built, on a stack of their own — the same whether the source is
+        // being evaluated or compiled, and whatever earlier programs left on the stack
+        15 => format!("#( depth #) println {}", a),
+        16 => format!("#( depth {} + #) {} + println", b, n),
+        17 => format!(": w #( depth #) ; w w + println #( depth depth #) + println"),
+        18 => format!("{} #( 1 + #) {}", a, b),
+        19 => format!("[ #( depth #) {} ] println #( #( depth #) depth + #) println", n),
         // user-defined immediate words: they run at build time, alone (repair a64e06d: the code compiled so far is not
         // executed with them, nor a second time by compile + run)
         12 => format!(": imm immediate {} println ; {} imm {}", b, a, n),
@@ -76,7 +83,7 @@ pub fn run(ctx: &mut Ctx) {
         if src.contains(" immediate ") { ctx.tag("prog:user-immediate"); }
         n_done += 1;
         for t in tags.iter() { ctx.tag(&format!("prog:{}", t)); }
-        let (bname, bstate) = { let i = if ctx.rng.chance(25) { ctx.rng.below(bases.len()) } else { 0 }; (bases[i].0, &bases[i].1) };
+        let (bname, bstate) = { let i = if ctx.rng.chance(25) || src.contains("#(") { ctx.rng.below(bases.len()) } else { 0 }; (bases[i].0, &bases[i].1) };
         ctx.tag(&format!("base:{}", bname));
         ctx.progress(&format!("C15 base={} `{}`", bname, src));
         let mut results: Vec<(String, String)> = Vec::new();
